@@ -136,4 +136,83 @@ theorem sqTe_le_tgt (spec : Format) (m : Nat) (e : Int) (hm : 0 < m) :
     unfold tgt Format.targetExponent totalExponent
     omega
 
+/-- **`sqrt` is correctly rounded, every format** (unpacked level, in squares — no irrational number is needed):
+the result of `sqrt` on a positive finite `m · 2^e` is a zero or finite canonical value `r ≥ 0` with
+`(r − h)² ≤ m · 2^e ≤ (r + h)²`, `h = 2^tg / 2` half an ulp of a grid of the format (`r − h ≤ √x ≤ r + h`), on which
+`r` has a full mantissa unless it is the subnormal grid. -/
+theorem sqrt_err_unpacked (spec : Format) (m : Nat) (e : Int) (hm : 0 < m) :
+    ∃ (r : ℚ) (tg : Int), spec.minExponent ≤ tg ∧
+      uval (UnpackedFloat.sqrt spec (.finite .positive m e hm)) = r ∧ 0 ≤ r ∧
+      Canon spec (UnpackedFloat.sqrt spec (.finite .positive m e hm)) ∧
+      (UnpackedFloat.sqrt spec (.finite .positive m e hm)).isFinite = true ∧
+      (m : ℚ) * (2 : ℚ) ^ e ≤ (r + (2 : ℚ) ^ tg / 2) ^ 2 ∧
+      ((2 : ℚ) ^ tg / 2 ≤ r → (r - (2 : ℚ) ^ tg / 2) ^ 2 ≤ (m : ℚ) * (2 : ℚ) ^ e) ∧
+      (tg = spec.minExponent ∨ (2 : ℚ) ^ (spec.mantissaBits - 1) * (2 : ℚ) ^ tg ≤ r) := by
+  have he := sqTe_le_tgt spec m e hm
+  have hs2 := sqTe_le spec m e
+  have hMeq := sqM_eq spec m e
+  have key := sqrt_fin spec m e hm
+  generalize sqTe spec m e = te at *
+  generalize sqM spec m e = M at *
+  obtain ⟨hq, hacc⟩ := sqrt_proxy (Nat.sqrt M) (M - Nat.sqrt M * Nat.sqrt M)
+  have hD := sqrtD_pos (M - Nat.sqrt M * Nat.sqrt M)
+  rw [← hacc] at key
+  have hb := sqrt_rne_bounds (Nat.sqrt M) M (2 ^ (tgt spec (Nat.sqrt M) te - te).toNat) (Nat.two_pow_pos _)
+    (Nat.sqrt_le M) (Nat.lt_succ_sqrt M)
+  generalize sqrtN (Nat.sqrt M) (M - Nat.sqrt M * Nat.sqrt M) = N at *
+  generalize sqrtD (M - Nat.sqrt M * Nat.sqrt M) = D at *
+  rw [← hq] at key he hb
+  obtain ⟨hs, hn⟩ := rwa_shape spec .positive N D hD te he
+  rw [← key] at hs
+  generalize UnpackedFloat.sqrt spec (.finite .positive m e hm) = res at *
+  have hge := tgt_ge_min spec (N / D) te
+  generalize tgt spec (N / D) te = tg at *
+  obtain ⟨hA, hB⟩ := hb
+  generalize rne N (D * 2 ^ (tg - te).toNat) = q at *
+  have hT := two_zpow_pos te
+  have htg : (2 : ℚ) ^ tg = ((2 ^ (tg - te).toNat : Nat) : ℚ) * (2 : ℚ) ^ te := by
+    push_cast
+    rw [← zpow_natCast, ← zpow_add₀ (two_ne_zero)]; congr 1; omega
+  have hx : (m : ℚ) * (2 : ℚ) ^ e = (M : ℚ) * ((2 : ℚ) ^ te) ^ 2 := by
+    rw [hMeq]; push_cast
+    rw [mul_assoc, ← zpow_natCast, ← zpow_natCast ((2 : ℚ) ^ te), ← zpow_mul, ← zpow_add₀ (two_ne_zero)]
+    congr 2; omega
+  have hK : (0 : ℚ) < ((2 ^ (tg - te).toNat : Nat) : ℚ) := by exact_mod_cast Nat.two_pow_pos _
+  generalize 2 ^ (tg - te).toNat = K at *
+  have hAq : (4 * (M : ℚ)) ≤ (2 * ((q : ℚ) * (K : ℚ)) + (K : ℚ)) * (2 * ((q : ℚ) * (K : ℚ)) + (K : ℚ)) := by
+    exact_mod_cast hA
+  have hT2 : (0 : ℚ) < ((2 : ℚ) ^ te) ^ 2 := by positivity
+  refine ⟨(q : ℚ) * (2 : ℚ) ^ tg, tg, hge, ?_, ?_, Shape.canon hs, ?_, ?_, ?_, ?_⟩
+  · rw [uval_of_shape hs]; simp [sgnQ]
+  · exact mul_nonneg (Nat.cast_nonneg _) (two_zpow_pos _).le
+  · rcases Shape.zeroOrFin hs with h | ⟨m', e', p', h⟩ <;> rw [h] <;> rfl
+  · rw [hx, htg]
+    have : ((q : ℚ) * ((K : ℚ) * (2 : ℚ) ^ te) + (K : ℚ) * (2 : ℚ) ^ te / 2) ^ 2 =
+        (2 * ((q : ℚ) * (K : ℚ)) + (K : ℚ)) * (2 * ((q : ℚ) * (K : ℚ)) + (K : ℚ)) * ((2 : ℚ) ^ te) ^ 2 / 4 := by ring
+    rw [this, le_div_iff₀ (by norm_num)]
+    calc (M : ℚ) * ((2 : ℚ) ^ te) ^ 2 * 4 = 4 * (M : ℚ) * ((2 : ℚ) ^ te) ^ 2 := by ring
+      _ ≤ _ := mul_le_mul_of_nonneg_right hAq hT2.le
+  · intro hh
+    rw [htg] at hh ⊢
+    have hk : K ≤ 2 * (q * K) := by
+      have h1 : (K : ℚ) * (2 : ℚ) ^ te ≤ (2 * ((q : ℚ) * (K : ℚ))) * (2 : ℚ) ^ te := by linarith
+      have h2 : (K : ℚ) ≤ 2 * ((q : ℚ) * (K : ℚ)) := le_of_mul_le_mul_right h1 hT
+      exact_mod_cast h2
+    have hBq : ((2 * ((q : ℚ) * (K : ℚ)) - (K : ℚ)) * (2 * ((q : ℚ) * (K : ℚ)) - (K : ℚ))) ≤ 4 * (M : ℚ) := by
+      have := hB hk
+      have c : ((2 * (q * K) - K : Nat) : ℚ) = 2 * ((q : ℚ) * (K : ℚ)) - (K : ℚ) := by
+        rw [Nat.cast_sub hk]; push_cast; ring
+      rw [← c]; exact_mod_cast this
+    rw [hx]
+    have : ((q : ℚ) * ((K : ℚ) * (2 : ℚ) ^ te) - (K : ℚ) * (2 : ℚ) ^ te / 2) ^ 2 =
+        (2 * ((q : ℚ) * (K : ℚ)) - (K : ℚ)) * (2 * ((q : ℚ) * (K : ℚ)) - (K : ℚ)) * ((2 : ℚ) ^ te) ^ 2 / 4 := by ring
+    rw [this, div_le_iff₀ (by norm_num)]
+    calc _ ≤ 4 * (M : ℚ) * ((2 : ℚ) ^ te) ^ 2 := mul_le_mul_of_nonneg_right hBq hT2.le
+      _ = _ := by ring
+  · rcases hn with h | h
+    · exact Or.inl h
+    · right
+      have : ((2 : ℚ) ^ (spec.mantissaBits - 1)) ≤ (q : ℚ) := by exact_mod_cast h
+      exact mul_le_mul_of_nonneg_right this (two_zpow_pos _).le
+
 end Rosu.FErr
